@@ -614,7 +614,7 @@ def _covariance_refusal(e) -> bool:
     """an exception that says 'this covariance is not acceptable' (as opposed to an unrelated crash)"""
     import re
 
-    return isinstance(e, np.linalg.LinAlgError) or bool(re.search(r"positive|definite|singular|covariance|symmetric|negative", str(e), re.I))
+    return isinstance(e, np.linalg.LinAlgError) or bool(re.search(r"positive|definite|singular|covariance|symmetric|negative|dtype|cast", str(e), re.I))
 
 
 # --------------------------------------------------------------------------- execution: direct mode
